@@ -18,7 +18,6 @@ import (
 	"github.com/ethereum/go-ethereum/common"
 	"github.com/ethereum/go-ethereum/core/types"
 	"verif/h/kit"
-	"verif/h/mc"
 	"verif/h/ref"
 )
 
@@ -75,11 +74,19 @@ func tagRank(n int64) int {
 	return -1
 }
 
+// sink receives what an execution observes; *mc.Ctx is one, the child-process recorder another.
+type sink interface {
+	Obs(format string, args ...any)
+	Failf(key string, format string, args ...any)
+	Witness(name string)
+}
+
 // world = the model environment + the real objects of ONE execution.
 type world struct {
-	c    *mc.Ctx
+	c    sink
 	p    params
-	live bool // oracles are evaluated (last event of the history, and the probe)
+	hist []string // the history being executed (for messages)
+	live bool     // oracles are evaluated (last event of the history, and the probe)
 	note string
 	mute bool   // diagnostic continuation: no observations
 	p1   string // a P1 violation found by the last event; reported at the end of the execution
@@ -113,7 +120,7 @@ type world struct {
 	lastSend string
 }
 
-func newWorld(c *mc.Ctx, p params) (*world, error) {
+func newWorld(c sink, p params) (*world, error) {
 	w := &world{c: c, p: p, byGER: map[common.Hash]*refLeaf{}, l2: map[common.Hash]bool{}}
 	parent := os.Getenv("VERIF_SCRATCH")
 	if parent == "" {
@@ -188,7 +195,7 @@ func (w *world) failf(key, format string, args ...any) {
 		return
 	}
 	w.c.Failf(key, "[tag=%s updates/block=%d start=%q history=%v%s] %s", w.p.Tag, w.p.Upd, preambles[w.p.Init],
-		w.c.History, w.note, fmt.Sprintf(format, args...))
+		w.hist, w.note, fmt.Sprintf(format, args...))
 }
 
 // ---------------------------------------------------------------------------------------------
